@@ -1,9 +1,9 @@
 package checks
 
 import (
-	"sync"
 	"fmt"
 	"strings"
+	"sync"
 	"testing"
 	"time"
 
@@ -48,7 +48,7 @@ func symbolFrame(sym string) (bool, []byte) {
 // c08Model: what the script must lead to.
 type c08Exp struct {
 	switched      bool
-	sessionClosed bool   // after the switch a later symbol legitimately closes the session
+	sessionClosed bool // after the switch a later symbol legitimately closes the session
 	closeReasons  []string
 	candMessages  int // messages sent on the candidate after the switch (must be delivered)
 }
@@ -183,7 +183,7 @@ func runC08(c c08Case, r *rep.Report) (key, msg string, stats map[string]int64) 
 				rig.Wait()
 				c2 := w.Candidate(sid, 4)
 				if err := c2.DialCandidateWS(); err != nil {
-					key, msg = "c08-later-upgrade-refused", "a candidate after a failed one was refused: " + err.Error()
+					key, msg = "c08-later-upgrade-refused", "a candidate after a failed one was refused: "+err.Error()
 					return
 				}
 				time.Sleep(time.Millisecond)
@@ -602,7 +602,7 @@ func runC08FlushVsUpgrade(r *rep.Report) (key, msg string, held bool) {
 			return
 		}
 		if sock.ReadyState() != "open" {
-			key, msg = "c08-failed-upgrade-cost-the-session:", "session closed: " + sock.ReadyState()
+			key, msg = "c08-failed-upgrade-cost-the-session:", "session closed: "+sock.ReadyState()
 		}
 		cl.Stop()
 	})
